@@ -1,6 +1,7 @@
 """C16 — copied strings decouple results from the input buffer; Clone is independent (DESIGN §5.16: K1, K2, U2, S6)."""
 from ..e2.checklib import Lemma, run_lemmas
 from . import C02
+from .. import lemmas_stage2
 
 FK = ["zz_verif_tape.go", "zz_verif_wf.go", "zz_verif_t1.go", "zz_verif_edit.go", "zz_verif_ser.go", "zz_verif_clone.go"]
 
@@ -38,4 +39,7 @@ def run(ctx):
                     expect_reach=["U2.options"]))
     # K2: readers on copy-mode tapes with arbitrary Message contents
     ls += [l for l in C02.t1_lemmas(ctx.tier, sizes=range(4, 8)) if ".Advance." in l.name or ".AdvanceInto." in l.name]
+    # the parser side: in copy mode every string entry carries the buffer flag (asserted on every accepting path), in no-copy
+    # mode the exposed document is the same
+    ls += [l for l in lemmas_stage2.p3_lemmas(ctx.tier, ndjson=(0,)) if ".K3" in l.name or ctx.tier != "quick"]
     run_lemmas(ctx, ls)
